@@ -75,6 +75,8 @@ CANARIES = [
     ('cursor-underflow-empty-node', 'C08', 'src/cursor.rs', 'if elem.index + 1 >= page_node.len() {', 'if elem.index >= (page_node.len() - 1) {'),
     ('cursor-current-on-branch', 'C08', 'src/cursor.rs', '                if !n.leaf() {\n                    return None;\n                }\n', ''),
     ('cursor-pop-root', 'C08', 'src/cursor.rs', '                    if self.stack.len() == 1 {\n                        return false;\n                    }\n', ''),
+    ('filter-kv-yields-buckets-too', 'C08', 'src/cursor.rs', '            if let Data::KeyValue(kv) = data {\n                return Some(kv);\n            }\n        }\n        None', '            if let Data::KeyValue(kv) = data {\n                return Some(kv);\n            } else {\n                return None;\n            }\n        }\n        None'),
+    ('filter-buckets-readonly-handle', 'C08', 'src/cursor.rs', '                            writable: self.writable,\n                            freelist: self.freelist.clone(),\n                            inner: r,', '                            writable: true,\n                            freelist: self.freelist.clone(),\n                            inner: r,'),
     ('cursor-next-repeats-entry', 'C08', 'src/cursor.rs', '        } else if self.next_called && !self.advance() {', '        } else if false && !self.advance() {'),
     ('cursor-search-wrong-child', 'C08', 'src/cursor.rs', '        let next_page_id = page_node.index_page(index);', '        let next_page_id = page_node.index_page(0);'),
     ('cursor-stops-at-emptied-leaf', 'C07', 'src/cursor.rs', '        while self.on_emptied_leaf() {', '        while false {'),
